@@ -262,7 +262,7 @@ impl Shared {
         let class;
         let accepted_arg: Option<Vec<u8>> = match entry {
             Entry::Bytes => {
-                if cb == Cb::Accept {
+                if cb == Cb::Accept || cb == Cb::RejectPersisted {
                     out.cb_args.last().cloned()
                 } else {
                     None
@@ -302,7 +302,7 @@ impl Shared {
                         }
                     }
                     Res::Ok(sig) => {
-                        if cb == Cb::Reject {
+                        if cb != Cb::Accept {
                             class = "valid-key:reject->SIGNATURE".to_string();
                             v.push(Viol::new("C04:signature-despite-reject", "a signature was returned although the callback reported failure"));
                         } else {
